@@ -236,12 +236,13 @@ static int cleanup(void)
 	}
 	return 0;
 }
-static void scramble(MPT_STRUCT(node) *l)
+/* every parent and predecessor link below a node is made wrong (they point to `junk`) */
+static void scramble(MPT_STRUCT(node) *l, MPT_STRUCT(node) *junk)
 {
 	for (; l; l = l->next) {
-		l->parent = 0;
-		l->prev = 0;
-		scramble(l->children);
+		l->parent = junk;
+		l->prev = junk;
+		scramble(l->children, junk);
 	}
 }
 static int get_tok(const char *s, MPT_STRUCT(node) **n)
@@ -413,7 +414,7 @@ int main(void)
 		else if (!strcmp(op, "relink") && (drv_nw == 3 || (drv_nw == 4 && !strcmp(drv_w[3], "scramble")))) {
 			if (get_tok(drv_w[2], &a) < 0) { puts("bad-op"); continue; }
 			/* "restore node links": parent and predecessor links below the node follow from the child and successor links */
-			if (drv_nw == 4) scramble(a->children);
+			if (drv_nw == 4) scramble(a->children, a);
 			mpt_gnode_relink(a);
 			result("ok", "-");
 		}
